@@ -25,10 +25,10 @@ from harness.props.c02 import near_miss, stable_order, gen_shared_pairs
 
 THEOREM_FILE = "Properties/C03.v"
 COQCHK = ["Properties.C03"]
-RULE = ("pairs of nested values over dict (str/int/float/None/bool keys), list, tuple, set, frozenset, str (incl. multi-line, quotes, '__' prefixed), "
+RULE = ("pairs of nested values over dict (str/int/float/None/bool keys; bytes keys in 12 % of the random pairs), list, tuple, set, frozenset, str (incl. multi-line, quotes, '__' prefixed), "
         "bytes (incl. multi-line, non-ASCII outside sets), int, float (half-integers), bool, None: (a) exhaustive small universe "
         "(all ordered pairs in thorough, a seeded slice in quick), (b) random independent pairs, (c) edit-script neighbours (1-3 edits of every kind at "
-        "every depth) and near-miss edits (float +-0.5, int +-1, int<->float, bool<->int, str case/blank/newline, str<->bytes, list<->tuple, set<->frozenset), (d) the same with ==-aliased atoms (1/True/1.0); each with ignore_private_variables in {True, False}. "
+        "every depth) and near-miss edits (float +-0.5, int +-1, int<->float, bool<->int, str case/blank/newline, str<->bytes, list<->tuple, set<->frozenset), (d) the same with ==-aliased atoms (1/True/1.0); (e) sequences of different length at every depth, (f) one container object at 2-3 sibling positions of t1; each with ignore_private_variables in {True, False}; a third of the pairs also at verbose_level 0 and 1 (projection of the definition). "
         "Non-trivial = the expected result is non-empty; distinct by (t1, t2, ip).")
 TRUSTED = ["NaN (float('nan'), math.nan, Decimal('NaN')) is outside the atom universe of the Coq model (floats are half-integers): direct oracle only, on values with NaN leaves "
            "at list / tuple / dict-value positions; rule of the definition: the same object on both sides is no difference, two distinct NaN objects are a values_changed",
@@ -36,7 +36,7 @@ TRUSTED = ["NaN (float('nan'), math.nan, Decimal('NaN')) is outside the atom uni
            "DeepHash of set members enters the main theorem as an injective function (hypothesis); the correspondence uses the DeepHash scalar model and, for pairs whose "
            "sets contain ==-aliased numbers (finding K2), the memo-threaded model Diff/DiffMemo.v run_diff_m; the Python specification is compared on every pair",
            "path strings: the model renders key sequences with the printer model Path/PathModel.v; the Python specification has its own 6-line renderer",
-           "values are tree-shaped (fresh containers), floats are half-integers, no bytes dict keys (finding F5, outside the quantifier), "
+           "values are tree-shaped for the model (one container object at several sibling positions of t1 is generated: a tree as far as the diff is concerned), floats are half-integers, "
            "no bytes that are not valid UTF-8 inside sets (DeepDiff raises UnicodeDecodeError asking for ignore_encoding_errors: documented)"]
 ASSUMPTIONS = ["dict/set inputs satisfy Python's representation invariant (keys / members pairwise !=)",
                "the item hash is injective on set members (C03_positional_is_spec); for the DeepHash scalar model: set members tag_safe, any injective hasher "
@@ -691,6 +691,10 @@ def run(ctx):
     ctx.coq_cases("c03m", hdr, cm, shard=150, label="model_vs_impl")
     ctx.coq_cases("c03s", hdr, cs, shard=150, label="coqspec_vs_impl")
     ctx.coq_cases("c03p", hdr, css, shard=150, label="coqspec_vs_pyspec")
+    # beyond C03's stated universe: datetimes / dates / times / timedeltas / Decimals inside the model (Diff/XuModel.v,
+    # Diff/XuSpec.v): positional mode, model vs implementation, Coq definition vs implementation where it applies literally
+    from harness import xucommon as XU
+    XU.stream_c03(ctx, XU.gen_pairs(ctx.rng, 110 if ctx.thorough else 12))
 
 
 def replay(ctx, data):
